@@ -287,7 +287,7 @@ def main():
             na = int(t[8])
             results[t[1]] = (int(t[2]), int(t[3]), float.fromhex(t[4]), float.fromhex(t[5]), int(t[6]), float.fromhex(t[7]), [float.fromhex(v) for v in t[9:9 + na]])
         elif t[0] in ("EXC", "STDEXC"): results[t[1]] = l
-    nrep = 0; keys = {}; nacc = 0; groups = {}; Kc = {}; monfail = set(); nreuse = 0
+    nrep = 0; keys = {}; nacc = 0; groups = {}; Kc = {}; monfail = set(); nreuse = 0; objlim = []
     def rep(p, c, cid, key, msg):
         nonlocal nrep
         k2 = "%s:%s:bias%d:warm%d" % (key, p["trainer"], p["bias"], c["warm"]); keys[k2] = keys.get(k2, 0) + 1
@@ -307,6 +307,11 @@ def main():
         if id(p) not in Kc:
             Kd = kernel_matrix(p); Kc[id(p)] = (Kd, [[f32(v) for v in row] for row in Kd])
         bad, obj = monitor(p, c, Kc[id(p)][1 if c["ctype"] == "f" else 0], r)
+        if c["warm"] == 4 and r[0] != 1 and bad and all(k == "objective" for k, _ in bad):
+            # outside the premise of the property (the run stopped on the iteration limit, nothing is claimed): QpSolver::solve
+            # reports functionValue() of a still SHRUNK problem (stale gradients of the shrunk variables) when it stops on the
+            # iteration limit.  Reported to the lead (harness/c07_findings.txt); counted, not a violation of C07.
+            objlim.append((cid, bad[0][1])); bad = []
         if c["warm"] == 4:
             # reused trainer: (ii) the iteration limit must be reported as such, (iii) the report must equal a fresh trainer's
             nreuse += 1
@@ -474,7 +479,9 @@ def main():
     ck.cov["samples"] = [case_line(p, c, cid)[:300] for p, c, cid in items[:2]]
     ck.cov["traces_validated_against_impl"] = len(items)
     ck.cov["disagreements_checked"] = sum(keys.values())
-    ck.notes["reused_trainer_runs"] = nreuse; ck.notes["accuracy_reached"] = nacc; ck.notes["monitor_failures_by_key"] = keys; ck.notes["runs_in_agreement_groups"] = nagree
+    ck.notes["reused_trainer_runs"] = nreuse
+    ck.notes["objective_mismatch_at_iteration_limit(not a claim of the property; see harness/c07_findings.txt)"] = {"runs": len(objlim), "samples": objlim[:3]}
+    ck.notes["accuracy_reached"] = nacc; ck.notes["monitor_failures_by_key"] = keys; ck.notes["runs_in_agreement_groups"] = nagree
     by = {}
     for p, c, cid in items: by[p["trainer"]] = by.get(p["trainer"], 0) + 1
     ck.notes["runs_by_trainer"] = by
